@@ -31,7 +31,7 @@ ASSUMPTIONS = ["a message 'that is not a decodable SD notification' = wrong serv
                "for unicast-flag-clear messages only the foreign sender's own session entry may differ between twins"]
 FLOORS = {"quick": {"decoder_outcomes_checked": 50000, "class_parse": 10000, "class_ok": 10000, "class_unicode": 150,
                     "step_counted_calls": 5000, "live_sd_datagrams": 5000, "live_service_datagrams": 2000,
-                    "twin_runs": 200, "twin_injected_datagrams": 600, "twin_flagclear_runs": 40,
+                    "twin_runs": 200, "twin_injected_datagrams": 600, "twin_flagclear_runs": 40, "twin_flagclear_messages_inside_a_known_peers_session_sequence": 60,
                     "twin_background_callbacks": 2000, "twin_background_transmissions": 4000}}
 
 
@@ -418,13 +418,22 @@ def live_service(ctx, spec, rng):
 
 
 # ---------------------------------------------------------------------------------- (c) twin runs
-def background_script(rng):
-    """seeded genuine traffic from two peers: list of (time, data, src, multicast)"""
+def background_script(rng, slots=False):
+    """seeded genuine traffic from two peers: list of (time, data, src, multicast).  With slots, some messages of the two
+    peers are placeholders (data None, then the reboot flag and session id the peer would use): the caller fills them with SD
+    messages whose unicast flag is clear, in the peers' own session sequences"""
     A, B = net.PeerSession(), net.PeerSession()
     ev = []
     t = 0.0
     while t < 9.0:
         t += rng.choice((2.0 ** -5, 2.0 ** -3, 0.25, 0.5, 1.0))
+        if slots and rng.random() < 0.25:
+            peer, src = rng.choice(((A, PEER_A), (B, PEER_B)))
+            mc = rng.random() < 0.5
+            fl, sid = peer.next("m" if mc else "u")
+            ev.append((t, None, src, mc, fl, sid))
+            if rng.random() < 0.5:
+                continue
         r = rng.random()
         if r < 0.35:
             mc = rng.random() < 0.6
@@ -539,9 +548,40 @@ def run_scenario(seed, script, collect):
 def twin(ctx, spec, rng, idx):
     seed = f"{spec['seed']}/{spec['shard']}/{idx}"
     srng = random.Random("bg" + seed)
-    base = background_script(srng)
-    collect = srng.choice((0, 2.0 ** -8))
     flagclear = idx % 5 == 4
+    slotted = idx % 10 == 9
+    base = background_script(srng, slots=slotted)
+    collect = srng.choice((0, 2.0 ** -8))
+    filled = []
+    if slotted:
+        # "the entries of an SD message whose unicast flag is clear are ignored": the two known peers send such messages inside
+        # their own session sequences, naming exactly the services and subscriptions their genuine traffic is about.  Twin a
+        # gets every such message without entries, twin b with them; everything observable must agree.
+        plain = []
+        for ev in base:
+            if ev[1] is not None:
+                plain.append(ev)
+                continue
+            t, _none, src, mc, fl, sid = ev
+            if src == PEER_A:
+                ents = [net.offer(SVC_REMOTE["sid"], srng.choice((1, 1, 2)), 2, 0, srng.choice((0, 0, 3, 0xFFFFFF)),
+                                  o1=[refwire.ep4("10.0.0.2", 3000)]) for _ in range(srng.randrange(1, 3))]
+            else:
+                ents = [net.subscribe(SVC_LOCAL["sid"], 1, 1, srng.choice((1, 2)), srng.choice((0, 0, 3)), counter=srng.choice((0, 1)),
+                                      o1=[refwire.ep4("10.0.0.3", 4000)]) for _ in range(srng.randrange(1, 3))]
+                if srng.random() < 0.3:
+                    ents.append(net.find(SVC_LOCAL["sid"]))
+            plain.append((t, net.sd_bytes([], sid, reboot=fl, unicast=False), src, mc))
+            filled.append((t, net.sd_bytes(ents, sid, reboot=fl, unicast=False), src, mc))
+            ctx.count("twin_flagclear_messages_inside_a_known_peers_session_sequence")
+            ctx.note("twin_reject_kinds", "unicast-flag-clear:known-peer:" + ("stop" if any(e["ttl"] == 0 for e in ents) else "live"))
+        with_entries = []
+        it = iter(filled)
+        for ev in base:
+            with_entries.append(ev if ev[1] is not None else next(it))
+        base, base_b = plain, with_entries
+    else:
+        base_b = base
     a, esc_a, prob_a = run_scenario(seed, [(t, BEFORE, d, s, m) for t, d, s, m in base], collect)
     # injection instants: random, coinciding with genuine traffic, around the endpoint's own transmissions
     instants = [t for t, *_ in base] + [t for t, _d, _a in a["sent"]]
@@ -565,7 +605,7 @@ def twin(ctx, spec, rng, idx):
         ctx.note("twin_reject_kinds", kind)
         ctx.note("twin_injection_modes", mode)
     # merge, injected datagram placed before or after genuine traffic of the same instant
-    merged = [(t, 1, i, (t, BEFORE, d, s, m)) for i, (t, d, s, m) in enumerate(base)]
+    merged = [(t, 1, i, (t, BEFORE, d, s, m)) for i, (t, d, s, m) in enumerate(base_b)]
     for j, (t, d, s, m, kind, mode, rank) in enumerate(inj):
         merged.append((t, srng.choice((0, 2)), j, (t, rank, d, s, m)))
     merged.sort(key=lambda x: x[:3])
@@ -577,7 +617,8 @@ def twin(ctx, spec, rng, idx):
     if flagclear:
         ctx.count("twin_flagclear_runs")
     replay = dict(kind="twin", spec=dict(seed=spec["seed"], shard=spec["shard"]), idx=idx)
-    desc = dict(injected_datagrams=[(t, k, m, s, d[:60]) for t, d, s, _mc, k, m, _r in inj])
+    desc = dict(injected_datagrams=[(t, k, m, s, d[:60]) for t, d, s, _mc, k, m, _r in inj],
+                flagclear_messages_of_known_peers=[(t, s, d[:80]) for t, d, s, _mc in filled][:6])
     for e in esc_b[:2]:
         ctx.violation("exception-leaves-datagram_received:" + e[0], dict(endpoint="discovery", exc=e[1], datagram=e[2][:200]), replay)
     for e in esc_a[:1]:
